@@ -70,3 +70,4 @@ int main(int argc, char **argv) {
     }
     return vf::finish();
 }
+// (thorough count reduced)
